@@ -32,7 +32,7 @@ def cases(tier, seed):
         if cfg["env"] in ("flp", "mcp") and cfg["k"] > 1:
             for r in range(reps // 2):
                 out.append(dict(kind="other", cfg=cfg, family="mixed_quota", B=16, s=rnd.randrange(10**6)))
-        if cfg["env"] == "mdpp":
+        if cfg["env"] == "mdpp" or (cfg["env"] == "mcp" and cfg["items"] <= 40):
             for r in range(reps // 2):
                 out.append(dict(kind="other", cfg=cfg, family="handbuilt", B=16, s=rnd.randrange(10**6)))
     # every fourth case decodes the same instance object twice without cloning it (evaluate a batch, evaluate it again):
@@ -40,6 +40,8 @@ def cases(tier, seed):
     for i, c_ in enumerate(out):
         if i % 4 == 3:
             c_["reuse"] = True
+            if c_.get("cfg", {}).get("env") in ("flp", "mcp", "dpp", "mdpp", "fjsp", "jssp", "smtwtp"):
+                c_["reuse_n"] = [1, 4, 9][(i // 4) % 3]
         elif i % 4 == 1:
             c_["torchrl"] = True  # TorchRL-mode env driven with look-ahead probes
     return out
